@@ -45,6 +45,10 @@ pub struct Scn {
     /// between (A waits for an FDT when the newer instance, which does not list it, arrives)
     #[serde(default)]
     pub a_before_newer: bool,
+    /// single instance: the FDT has several packets, one of its first transmission is lost and the instance
+    /// only completes with the carousel repetition this many seconds later (0 = single-packet FDT, no loss)
+    #[serde(default)]
+    pub fdt_spread_s: u64,
 }
 
 /// The datagram as it is delivered: flute's own, or with EXT_TIME re-encoded as SCT-High only.
@@ -98,11 +102,12 @@ pub fn gen(rng: &mut Rng, _tier: Tier) -> Scn {
         sct_high_only: rng.chance(0.3),
         id_wrap: rng.chance(0.4),
         a_before_newer: rng.chance(0.3),
+        fdt_spread_s: if rng.chance(0.2) { *rng.pick(&[3u64, 5, 9]) } else { 0 },
     }
 }
 
 /// One receiver run with the given clock offset; returns (complete exact, complete wrong, failed, writers) and the writer trace.
-fn receive_with_offset(scn: &Scn, ctx: &Ctx, sess: &Session, offset_s: i64) -> ((usize, usize, usize), Vec<String>) {
+fn receive_with_offset(scn: &Scn, ctx: &Ctx, sess: &Session, offset_s: i64, t_f: u64, lost: Option<usize>) -> ((usize, usize, usize), Vec<String>) {
     let mut recv = RecvSpec::basic();
     recv.expiry_check = scn.check;
     recv.object_timeout_ms = Some(1_000_000_000);
@@ -110,14 +115,16 @@ fn receive_with_offset(scn: &Scn, ctx: &Ctx, sess: &Session, offset_s: i64) -> (
     let mut rr = RecvRun::new(&recv, ctx, monitor.clone(), false, "r0");
     let ep = EndpointSpec::default_ep().build();
     let base = sess.trace.pkts[0].t_us;
-    let t_f = base + scn.fdt_delay_us;
     let t_o = (t_f as i64 + scn.obj_gap_us).max(base as i64) as u64;
-    // delivery order by arrival time; the FDT first on ties
+    // delivery order by arrival time; the FDT first on ties. Every FDT packet has the same transit delay;
+    // `lost` (a packet of the first FDT transmission) never arrives, FDT packets emitted after the completing
+    // repetition are not needed
     let mut dl: Vec<(u64, bool, &Emitted)> = sess
         .trace
         .pkts
         .iter()
-        .map(|p| if p.dec.toi == 0 { (t_f, false, p) } else { (t_o, true, p) })
+        .filter(|p| Some(p.idx) != lost && !(p.dec.toi == 0 && p.t_us + scn.fdt_delay_us > t_f))
+        .map(|p| if p.dec.toi == 0 { (p.t_us + scn.fdt_delay_us, false, p) } else { (t_o, true, p) })
         .collect();
     dl.sort_by_key(|x| (x.0, x.1, x.2.idx));
     let second_phase = t_f.max(t_o);
@@ -263,12 +270,21 @@ pub fn run(scn: &Scn, ctx: &Ctx, scratch: &Path) {
     spec.fdt_duration_ms = scn.duration_s * 1000;
     spec.fdt_inband_sct = scn.sct;
     spec.fdt_carousel = CarouselSpec::DelayMs(1_000_000_000);
+    if scn.fdt_spread_s > 0 {
+        // an FDT of several packets, repeated by its carousel
+        spec.oti = OtiSpec::new(Scheme::NoCode, 128, 64, 0, true);
+        spec.fdt_carousel = CarouselSpec::DelayMs(scn.fdt_spread_s * 1000);
+    }
     let mut o = ObjectSpec::basic(50, 0xC19, 0);
     let (b, e) = (4u32, 8u16);
     o.oti = Some(OtiSpec::new(scn.scheme, e, b, if scn.scheme == Scheme::NoCode { 0 } else { 1 }, scn.inband));
     let mut poll = PollSpec::simple(1000);
     poll.start_us = scn.publish_frac_us;
     poll.idle_polls_after_done = 0;
+    if scn.fdt_spread_s > 0 {
+        poll.gap = GapSpec::FixedUs(100_000);
+        poll.idle_polls_after_done = (scn.fdt_spread_s * 10 + 15) as u32;
+    }
     let s = SenderScn {
         spec,
         objects: vec![o],
@@ -284,10 +300,32 @@ pub fn run(scn: &Scn, ctx: &Ctx, scratch: &Path) {
         return;
     }
     // model (see DESIGN 4.C19): the sender-clock estimate at the moment the object is attached
-    let t_e = sess.trace.pkts[0].t_us; // publish = emission instant (SCT)
-    let expires_us = (t_e / 1_000_000 + scn.duration_s) * 1_000_000;
+    let t_e0 = sess.trace.pkts[0].t_us; // publish = emission instant of the first FDT packet
+    let expires_us = (t_e0 / 1_000_000 + scn.duration_s) * 1_000_000;
+    // (t_e, lost): the emission instant (= SCT) of the FDT packet that completes the instance at the receiver
+    let (t_e, lost) = if scn.fdt_spread_s > 0 {
+        // the second packet of the first transmission is lost; its copy in the repetition completes the instance
+        let first = &sess.txs[0];
+        let lost_idx = match first.pkts.get(1) {
+            Some(i) => *i,
+            None => {
+                ctx.borrow_mut().note("skip:fdt-has-one-packet");
+                return;
+            }
+        };
+        let (ls, le) = (sess.trace.pkts[lost_idx].dec.sbn, sess.trace.pkts[lost_idx].dec.esi);
+        match sess.trace.pkts.iter().find(|p| p.idx > first.last && p.dec.toi == 0 && p.dec.fdt.map(|f| f.1) == Some(first.instance_id) && p.dec.sbn == ls && p.dec.esi == le) {
+            Some(p) => (p.t_us, Some(lost_idx)),
+            None => {
+                ctx.borrow_mut().note("skip:fdt-not-repeated-in-the-recording");
+                return;
+            }
+        }
+    } else {
+        (t_e0, None)
+    };
     let t_f = t_e + scn.fdt_delay_us;
-    let t_o = (t_f as i64 + scn.obj_gap_us).max(t_e as i64) as u64;
+    let t_o = (t_f as i64 + scn.obj_gap_us).max(t_e0 as i64) as u64;
     let attach_true = t_f.max(t_o); // the object is attached when both have arrived
     let mut traces: Vec<(i64, Vec<String>)> = Vec::new();
     for off in &scn.offsets_s {
@@ -300,7 +338,7 @@ pub fn run(scn: &Scn, ctx: &Ctx, scratch: &Path) {
         let est_at_reception: i128 = if scn.sct { t_e as i128 } else { r_f };
         let margin = (est_at_attach - expires_us as i128).abs().min((est_at_reception - expires_us as i128).abs());
         let allowed = !scn.check || (est_at_attach <= expires_us as i128 && est_at_reception <= expires_us as i128);
-        let ((exact, wrong, failed), tr) = receive_with_offset(scn, ctx, &sess, *off);
+        let ((exact, wrong, failed), tr) = receive_with_offset(scn, ctx, &sess, *off, t_f, lost);
         traces.push((*off, tr));
         if wrong > 0 {
             violate(ctx, "C19/complete-wrong-bytes", "-", format!("offset {} s: complete with wrong bytes", off));
@@ -359,6 +397,9 @@ pub fn run(scn: &Scn, ctx: &Ctx, scratch: &Path) {
     if scn.sct && scn.sct_high_only {
         c.count_fault("ext-time-sct-high-only");
     }
+    if lost.is_some() {
+        c.count_fault("drop-fdt-packet-completed-by-repetition");
+    }
     if scn.fdt_delay_us > 0 || scn.obj_gap_us != 0 {
         c.count_fault("delay");
     }
@@ -409,6 +450,7 @@ impl Prop for C19 {
         push(&|n| n.sct_high_only = false);
         push(&|n| n.id_wrap = false);
         push(&|n| n.a_before_newer = false);
+        push(&|n| n.fdt_spread_s = 0);
         push(&|n| n.fdt_delay_us = 0);
         push(&|n| n.scheme = Scheme::NoCode);
         push(&|n| n.inband = true);
